@@ -205,15 +205,20 @@ func runC05(t *mon.T, raw json.RawMessage) {
 	t.Cover("api:" + d.API)
 	t.Cover("cfg:" + cfg.Short())
 	fail := func(err error) { t.Violatef(d.API+"/session/error", "%s session failed: %v (cfg %s)", d.API, err, cfg) }
-	for _, b := range content.Blocks {
-		m.Put(b)
-	}
 	// "any writing session" includes one that was interrupted and resumed: in a third of the sessions of
 	// the resumable APIs the store is given up (Discard, or Finalize) after `cut` puts and reopened
 	cut, cutHow := -1, ""
 	if d.Big == 0 && len(content.Blocks) >= 2 && d.Seed%3 == 0 && (d.API == "blockstore" || d.API == "blockstore-many" || d.API == "storage-rw") {
 		cut, cutHow = 1+int(uint64(d.Seed>>3)%uint64(len(content.Blocks)-1)), []string{"discard", "finalize"}[(d.Seed>>2)&1]
 		t.Cover("sessions-resumed-after-" + cutHow)
+	}
+	if cut >= 2 && cfg.AllowDup {
+		// the part written before the interruption holds the same block twice (two sections, two index entries)
+		content.Blocks[1] = content.Blocks[0]
+		t.Cover("sessions-resumed-over-duplicate-sections")
+	}
+	for _, b := range content.Blocks {
+		m.Put(b)
 	}
 	switch d.API {
 	case "blockstore", "blockstore-many":
